@@ -73,6 +73,8 @@ pub(crate) struct Circuit {
     success_count: usize,
     total_count: usize,
     slow_call_count: usize,
+    // Outcomes (is_failure, is_slow) of the last `sliding_window_size` calls (count-based)
+    count_window: VecDeque<(bool, bool)>,
     // Time-based window tracking
     call_records: VecDeque<CallRecord>,
 }
@@ -100,8 +102,46 @@ impl Circuit {
             success_count: 0,
             total_count: 0,
             slow_call_count: 0,
+            count_window: VecDeque::new(),
             call_records: VecDeque::new(),
         }
+    }
+
+    /// Records one outcome in the count-based window, evicting the oldest
+    /// outcome once more than `window_size` calls are tracked.
+    fn push_count_based(&mut self, window_size: usize, is_failure: bool, is_slow: bool) {
+        self.count_window.push_back((is_failure, is_slow));
+        if is_failure {
+            self.failure_count += 1;
+        } else {
+            self.success_count += 1;
+        }
+        if is_slow {
+            self.slow_call_count += 1;
+        }
+        self.total_count += 1;
+        while self.count_window.len() > window_size.max(1) {
+            if let Some((old_failure, old_slow)) = self.count_window.pop_front() {
+                if old_failure {
+                    self.failure_count -= 1;
+                } else {
+                    self.success_count -= 1;
+                }
+                if old_slow {
+                    self.slow_call_count -= 1;
+                }
+                self.total_count -= 1;
+            }
+        }
+    }
+
+    fn clear_window(&mut self) {
+        self.success_count = 0;
+        self.failure_count = 0;
+        self.total_count = 0;
+        self.slow_call_count = 0;
+        self.count_window.clear();
+        self.call_records.clear();
     }
 
     pub fn state(&self) -> CircuitState {
@@ -195,11 +235,7 @@ impl Circuit {
         // Update statistics based on window type
         match config.sliding_window_type {
             SlidingWindowType::CountBased => {
-                self.success_count += 1;
-                self.total_count += 1;
-                if is_slow {
-                    self.slow_call_count += 1;
-                }
+                self.push_count_based(config.sliding_window_size, false, is_slow);
             }
             SlidingWindowType::TimeBased => {
                 if let Some(window_duration) = config.sliding_window_duration {
@@ -274,11 +310,7 @@ impl Circuit {
         // Update statistics based on window type
         match config.sliding_window_type {
             SlidingWindowType::CountBased => {
-                self.failure_count += 1;
-                self.total_count += 1;
-                if is_slow {
-                    self.slow_call_count += 1;
-                }
+                self.push_count_based(config.sliding_window_size, true, is_slow);
             }
             SlidingWindowType::TimeBased => {
                 if let Some(window_duration) = config.sliding_window_duration {
@@ -452,11 +484,7 @@ impl Circuit {
         self.state = state;
         self.state_atomic.store(state as u8, Ordering::Release);
         self.last_state_change = std::time::Instant::now();
-        self.success_count = 0;
-        self.failure_count = 0;
-        self.total_count = 0;
-        self.slow_call_count = 0;
-        self.call_records.clear();
+        self.clear_window();
     }
 
     fn evaluate_window<C>(&mut self, config: &CircuitBreakerConfig<C>) {
